@@ -251,14 +251,26 @@ func checkBook(b *Base, bk Book, which string) (*MatchRef, []Violation) {
 				vs = append(vs, viol("C04/refund-out-of-range", "%s reserved %s, refund %s", short(bd), ref.ReqSum[bd], refund))
 				continue
 			}
-			if ref.Alloc[bd].Sign() == 0 {
+			// judged relative to the price and allocation the implementation itself reports (whether
+			// they are the right ones is C03's business)
+			got := zeroIfNil(mInfo.Alloc[bd])
+			if got.Sign() == 0 {
 				if pay.Sign() != 0 {
 					vs = append(vs, viol("C04/loser-not-fully-refunded", "%s wins nothing, reserved %s, refund %s", short(bd), ref.ReqSum[bd], refund))
 				}
 				continue
 			}
-			if pay.Cmp(ref.PayLo[bd]) < 0 || pay.Cmp(ref.PayHi[bd]) > 0 {
-				vs = append(vs, viol("C04/payment-out-of-bounds", "cleared at %s: %s gets %s coins and pays %s (reserved %s); bounds [%s,%s] exact=%v", mstr(ref.PStarM), short(bd), ref.Alloc[bd], pay, ref.ReqSum[bd], ref.PayLo[bd], ref.PayHi[bd], ref.Exact[bd]))
+			if mInfo.Price == nil || mInfo.Price.Sign() <= 0 {
+				vs = append(vs, viol("C04/allocation-without-price", "%s is allocated %s coins but no clearing price is reported", short(bd), got))
+				continue
+			}
+			lo, hi, exact, eligible, _ := PayBounds(bids, bd, "paya", mInfo.Price, got)
+			if eligible == 0 {
+				vs = append(vs, viol("C04/price-above-every-bid", "cleared at %s: %s gets %s coins although none of its bids is priced at or above that", mstr(mInfo.Price), short(bd), got))
+				continue
+			}
+			if pay.Cmp(lo) < 0 || pay.Cmp(hi) > 0 {
+				vs = append(vs, viol("C04/payment-out-of-bounds", "cleared at %s: %s gets %s coins and pays %s (reserved %s); bounds [%s,%s] exact=%v", mstr(mInfo.Price), short(bd), got, pay, ref.ReqSum[bd], lo, hi, exact))
 			}
 		}
 		// conversion helpers on every bid of the book
